@@ -404,6 +404,8 @@ class Build:
         if k == 'catch':
             exc = getattr(fns, 'catch_exc', None)
             return r_catch(u, exc) if exc is not None else r_by_index(u)
+        if k == 'mapguard':
+            return r_map(u, fns.guard(op[1], stage))
         if k == 'mapfail':
             return r_map(u, fns.raiser(op[1], op[2], stage))
         if k in ('copy', 'freeze'):
